@@ -192,6 +192,9 @@ class LasReader:
                         self.header.number_of_evlrs,
                         extended=True,
                     )
+        elif self.header.version.minor >= 4 and self.evlrs is None:
+            # nothing to load: same (empty) list as when EVLRs are read at opening
+            self.evlrs = VLRList()
         return las_data
 
     def seek(self, pos: int, whence: int = io.SEEK_SET) -> int:
